@@ -145,6 +145,7 @@ def generate(rng, index, tier):
     scn['earlier'] = rng.chance(0.2)
     scn['late_table'] = rng.chance(0.1)
     scn['paged'] = rng.chance(0.25)        # the same stream also goes through feed_generator() in pages on a second parser    # the caller completes the code table it handed over after building the parser       # another parser object in the same process saw unfinished operations of these threads
+    scn['consumer_edits'] = rng.chance(0.15)     # every returned trace's record list is emptied by the caller as soon as it is judged
     if rng.chance(0.15):
         # id-remapped table: a decodable name lives under another id
         cat = worlds.catalog()
@@ -331,8 +332,13 @@ def execute(scn):
             else:
                 if top or ret is not None:
                     bad('emitted-for-undecodable-single', 'q=%d' % rec['q'], 'record %d %r: %r / %r' % (i, name, top, ret))
-        if ret is not None and not top and kind != 'end-matched':
-            pass
+        if scn.get('consumer_edits') and ret is not None and isinstance(getattr(ret, 'ktraces', None), list):
+            # the caller uses the trace up: its record list is emptied in place (the list is the caller's; every other window
+            # of the thread has its own)
+            if reported and reported[-1][0] is ret:
+                reported.pop()
+            del ret.ktraces[:]
+            bump('fault:consumer_edits_results')
         if len(m.open) < 64:
             sigs.add(m.signature())
         hist.append([i, kind, [c[:2] for c in top], None if ret is None else type(ret).__name__])
